@@ -698,6 +698,9 @@ GROUPS = ["4911-1500000000@g.us", "g2@g.us"]
 SEEDS = [bytes(range(i, i + 64)).hex() for i in (0, 1, 2)]
 
 
+ODD_ID_SEEDS = ["0102030405", "aa", bytes(range(7, 38)).hex()]     # 5, 1 and 31 byte "public keys"
+
+
 def gen_op(rng):
     k = rng.random()
     seed = rng.choice(SEEDS)
@@ -711,7 +714,8 @@ def gen_op(rng):
     if k < .31:
         return {"op": "deleteAllSessions", "args": {"r": r}}
     if k < .45:
-        return {"op": "saveIdentity", "args": {"r": r, "seed": seed}}
+        # an identity key is whatever bytes the peer sent (Curve.decodePoint does not length-check): also short ones
+        return {"op": "saveIdentity", "args": {"r": r, "seed": rng.choice(ODD_ID_SEEDS) if rng.random() < .12 else seed}}
     if k < .57:
         return {"op": "storePreKey", "args": {"i": i, "seed": seed}}
     if k < .62:
@@ -792,6 +796,11 @@ def directed():
     ti = [{"op": "isTrustedIdentity", "args": {"r": "4911", "seed": s}}, {"op": "isTrustedIdentity", "args": {"r": "4911", "seed": s2}}]
     both([si(s), si(s2), si(s)], ti)
     both([si(s), si(s)], ti)
+    for odd in ODD_ID_SEEDS:
+        tio = ti + [{"op": "isTrustedIdentity", "args": {"r": "4911", "seed": odd}}]
+        both([si(s), si(odd), ss(1)], tio)
+        both([si(odd), si(s), ss(1)], tio)
+        both([si(s), si(odd), si(s2), ss(1, "4922")], tio)
     sp = lambda i, seed: {"op": "storePreKey", "args": {"i": i, "seed": seed}}
     rp = {"op": "removePreKey", "args": {"i": 1}}
     rd = [{"op": "containsPreKey", "args": {"i": 1}}, {"op": "loadUnsentPendingPreKeys", "args": {}}]
